@@ -22,10 +22,16 @@ def udp_scenario(ctx, backend, sockets, rnd, trace, run_id):
     drv = None
     n = 0
     try:
-        probe_ip = "::1" if sockets == "v6" else "127.0.0.1"
-        udp_wait_ready((probe_ip, port), ip=probe_ip if sockets == "v6" else "127.0.0.1", tracker=t)
-        trace.append({"ev": "reset", "run": run_id, "backend": backend, "sockets": sockets, "max_scrape": 5,
-                      "max_resp": 10, "forbidden": []})
+        reset = {"ev": "reset", "run": run_id, "backend": backend, "sockets": sockets, "max_scrape": 5,
+                 "max_resp": 10, "forbidden": []}
+        probes = [("::1", "::1")] if sockets == "v6" else [("127.0.0.1", "127.0.0.1")]
+        if sockets in ("both", "both_dual", "dual"):
+            probes.append(("::1", "::1"))
+        for srv_ip, ip in probes:
+            srv_port = port2 if (sockets == "both_dual" and ":" in srv_ip) else port
+            if not ready_or_record(trace, t, (srv_ip, srv_port), ip, reset):
+                return 0
+        trace.append(reset)
         dual_only = sockets == "dual"
         drv = Driver(ctx, ("127.0.0.1", port), ("::1", port if sockets != "both_dual" else port2), trace, rnd,
                      dual=dual_only)
